@@ -499,6 +499,10 @@ def run_module(name, case, note):
     parattr = spec["par"][0] if spec.get("par") else None
     classify(name, case, note)
     x, y, z = cloud(pts)
+    if case.get("int_coords"):
+        # lattice positions held in integer arrays (np.arange grids)
+        note.cls("integer-dtype-coordinates")
+        x, y, z = [a.astype(np.int64) for a in (x, y, z)]
     lam = lam_of(name)
     symbolic = name != "EdS"
     tol = TOL if symbolic else TOL_FD
@@ -937,7 +941,13 @@ def module_case(draw, name):
             b = spec["box"]
             pts.append([draw(st.floats(-b, b, allow_nan=False))
                         for _ in range(3)])
-    return dict(t=t, pts=pts, par=par)
+    case = dict(t=t, pts=pts, par=par)
+    if name not in ("Schwarzschild_isotropic", "Non_diagonal") and \
+            draw(st.integers(0, 5)) == 0:
+        # integer lattice positions, stored in an integer array
+        case["pts"] = [[float(round(v)) for v in p] for p in pts]
+        case["int_coords"] = True
+    return case
 
 
 GENERIC = {
